@@ -54,6 +54,7 @@ def plan(prop, tier):
     P[prop].append(('LS', lambda: LY.LS(tier, sch)))
     P[prop].append(('L1neg', lambda: LY.L1neg(tier, sch)))
     P[prop].append(('L1i', lambda: LY.L1i(tier, sch)))
+    P[prop].append(('LX', lambda: LY.LX(tier, sch)))
     if prop in ('C03', 'C04', 'C14', 'C07'):
         P[prop].append(('L7t', lambda: LY.L7t(tier)))
     if prop in ('C02', 'C07', 'C14', 'C09', 'C03', 'C04'):
@@ -694,7 +695,7 @@ def c06_clock(sc, acc):
 def _c06_layers(tier):
     return [('L1', lambda: LY.L1(tier)), ('L1x', lambda: LY.L1x(tier)), ('L1y', lambda: LY.L1y(tier)), ('L2', lambda: LY.L2(tier)), ('L3', lambda: LY.L3(tier)),
             ('L6', lambda: LY.L6(tier)), ('L4clock', lambda: LY.L4_inputs(tier, ('fwd',))), ('L2ms', lambda: LY.L2ms(tier)),
-            ('L2n', lambda: LY.L2n(tier)), ('L1p', lambda: LY.L1p(tier)), ('L6r', lambda: LY.L6r(tier)), ('LS', lambda: LY.LS(tier)), ('L1neg', lambda: LY.L1neg(tier)), ('L1i', lambda: LY.L1i(tier)), ('H', None)]
+            ('L2n', lambda: LY.L2n(tier)), ('L1p', lambda: LY.L1p(tier)), ('L6r', lambda: LY.L6r(tier)), ('LS', lambda: LY.LS(tier)), ('L1neg', lambda: LY.L1neg(tier)), ('L1i', lambda: LY.L1i(tier)), ('LX', lambda: LY.LX(tier)), ('H', None)]
 
 
 def _work_c06(chunk):
